@@ -4,6 +4,7 @@ C13 — Diff is total on untrusted page-range input.
 -/
 import MstVerif.Proofs.DiffList
 import MstVerif.Proofs.DiffDepth
+import MstVerif.Proofs.DepthTree
 import Mathlib.Data.Nat.Basic
 
 namespace Mst.Props
@@ -52,6 +53,15 @@ implementation-side replay shows the overflow at depth ≈ 12 000 on a 2 MiB sta
 theorem C13_depth_chain (n : Nat) (h₁ h₂ : D) (hne : h₁ ≠ h₂) :
     diffDepth (chain n h₁) (chain n h₂) = .ok n :=
   diffDepth_chain n h₁ h₂ hne
+
+/-- Real trees are safe: diffing against the serialisation of a real (hashed) peer tree recurses at
+most (root level + 1) deep — whatever the local list is. Levels are `u8` (and < 65 for digests up to
+32 bytes), so trees produced by this library can never exhaust the stack; only untrusted,
+artificially nested input can (F2). -/
+theorem C13_depth_real_tree {V : Type} (lvl : K → Nat) (hc : HashCfg K V D) (tP : Tree K V D)
+    (hP : Hashed lvl hc tP) (L : Nat) (hL : tP.root.level? = some L)
+    (loc : List (PR K D)) (d : Nat) (hd : diffDepth loc (pageRanges hc tP) = .ok d) : d ≤ L + 1 :=
+  diffDepth_real_tree lvl hc tP hP L hL loc d hd
 
 /-- Non-vacuity (test): a nested, unordered, duplicated pair of lists. -/
 example : ∃ out, diff ([⟨3, 9, 1⟩, ⟨1, 20, 2⟩, ⟨3, 9, 1⟩] : List (PR Nat Nat))
